@@ -178,3 +178,45 @@ Proof.
         (accepted_path_match_np bs ps H)))))))))).
 Qed.
 Print Assumptions C08_evaluation_of_any_accepted_path_never_panics.
+
+(* ---- what the steps MEAN, stated declaratively and independently of the code mirror (PathSemLaws.v): PathSem.v — the
+   evaluator the byte selector is proved equal to — satisfies these laws ---- *)
+From JB Require Import PathSemLaws.
+Theorem C08_step_meanings :
+  (* [i], 0 <= i: the element at position i *)
+  (forall l i, (0 <= i)%Z -> select_indices l [AIndex (IIndex i)] = match nth_error l (Z.to_nat i) with Some x => [x] | None => [] end) /\
+  (forall l i, (i < 0)%Z -> select_indices l [AIndex (IIndex i)] = []) /\
+  (* [last]: the last element; [last - k]: the k-th from the end; [last + k], 0 < k: nothing *)
+  (forall l, select_indices l [AIndex (ILast 0)] = match rev l with x :: _ => [x] | [] => [] end) /\
+  (forall l k, (0 <= k)%Z -> select_indices l [AIndex (ILast (- k))] = match nth_error (rev l) (Z.to_nat k) with Some x => [x] | None => [] end) /\
+  (forall l k, (0 < k)%Z -> select_indices l [AIndex (ILast k)] = []) /\
+  (* [s to e]: the sublist between the clamped bounds, both included *)
+  (forall l s e, select_indices l [ASlice s e] =
+     firstn (Z.to_nat (Z.min (bound e (lenZ l)) (lenZ l - 1) - Z.max 0 (bound s (lenZ l)) + 1)) (skipn (Z.to_nat (Z.max 0 (bound s (lenZ l)))) l)) /\
+  (* [a, b, ...]: the selections one after the other *)
+  (forall l a r, select_indices l (a :: r) = select_indices l [a] ++ select_indices l r) /\
+  (* [*] on an array: its elements; on anything else: the item itself.  .* on an object: its values.  .name: that member *)
+  (forall v, select_step PBracketWild v = Ok (match v with VArr l => l | _ => [v] end)) /\
+  (forall v, select_step PDotWild v = Ok (match v with VObj o => map snd o | _ => [] end)) /\
+  (forall p n v, p = PDotField n \/ p = PColonField n \/ p = PObjectField n ->
+     select_step p v = Ok (match v with VObj o => match assoc_lookup n o with Some x => [x] | None => [] end | _ => [] end)) /\
+  (forall ixs v, select_step (PIndices ixs) v = Ok (match v with VArr l => select_indices l ixs | _ => [] end)) /\
+  (* steps map the frontier item by item, in order, and compose *)
+  (forall fe p fr, plain_step p = true -> walk fe [p] fr = flat_map_res (select_step p) fr) /\
+  (forall fe ps qs fr, walk fe (ps ++ qs) fr = do m <- walk fe ps fr; walk fe qs m) /\
+  (* a filter keeps, in order, exactly the items at which its expression is true *)
+  (forall fe e fr out, walk fe [PFilter e] fr = Ok out -> exists g, out = filter g fr /\ forall x, In x fr -> fe x e = Ok (g x)) /\
+  (* a comparison is true at an item exactly when some pair of operand values satisfies it *)
+  (forall root op l r fr out, cmp_op op -> walk (fun pos e => filter_expr root pos e) [PFilter (EBin op l r)] fr = Ok out ->
+     exists g, out = filter g fr /\ forall x, In x fr -> (g x = true <-> cmp_holds root op l r x)) /\
+  (* && / || : conjunction / disjunction of the results *)
+  (forall root x l r a b, filter_expr root x l = Ok a -> filter_expr root x r = Ok b ->
+     filter_expr root x (EBin OAnd l r) = Ok (a && b) /\ filter_expr root x (EBin OOr l r) = Ok (a || b)) /\
+  (* exists(p): the sub-path selects something *)
+  (forall root x ps, filter_expr root x (EExists ps) = Ok true <-> exists items, find_positions root (Some x) ps = Ok items /\ items <> []).
+Proof.
+  exact (conj index_law (conj negative_index_law (conj last_law (conj last_minus_law (conj last_plus_law (conj slice_law
+        (conj indices_concat_law (conj bracket_wildcard_law (conj dot_wildcard_law (conj field_law (conj indices_step_law
+        (conj plain_step_law (conj steps_compose_law (conj filter_step_law (conj comparison_filter_law (conj and_or_values exists_law)))))))))))))))).
+Qed.
+Print Assumptions C08_step_meanings.
